@@ -3,6 +3,7 @@ package c19
 import (
 	"bytes"
 	"fmt"
+	"math/big"
 	"testing"
 
 	"pgregory.net/rapid"
@@ -355,6 +356,29 @@ func h2cEdit(t *rapid.T, name string, b []byte) ([]byte, string) {
 	}
 }
 
+// h2cRationalMap9380 is the edwards25519 -> curve25519 map of RFC 9380 appendix D.1 / G.2.2:
+// (s, t) = ((1+w)/(1-w), c1·s/v) for the Edwards point (v, w), where c1 = sqrt(-486664) is the
+// root with sgn0(c1) = 0 (the EVEN root; RFC 7748's base-point-preserving map uses the other
+// root, so the two maps differ by a negation). Only called for points of odd prime order, for
+// which v != 0 and w != 1.
+func h2cRationalMap9380(e refcurve.Point) refcurve.Point {
+	p := refcurve.Ed25519().P
+	c1 := refcurve.SqrtMinus486664()
+	if c1.Bit(0) == 1 {
+		c1.Sub(p, c1)
+	}
+	one := big.NewInt(1)
+	num := new(big.Int).Add(one, e.Y)
+	den := new(big.Int).Sub(one, e.Y)
+	den.Mod(den, p)
+	s := num.Mul(num, new(big.Int).ModInverse(den, p))
+	s.Mod(s, p)
+	tt := new(big.Int).Mul(c1, s)
+	tt.Mul(tt, new(big.Int).ModInverse(e.X, p))
+	tt.Mod(tt, p)
+	return refcurve.Curve25519().NewPoint(s, tt)
+}
+
 // ---- test 1: structural properties on every curve -------------------------------------------
 
 func TestH2CProperties(t *testing.T) {
@@ -423,7 +447,7 @@ func TestH2CProperties(t *testing.T) {
 			if err != nil {
 				t.Fatalf("%s: edwards25519 output not on the reference curve: %v", in, err)
 			}
-			if mm := refcurve.EdwardsToMontgomery(ep); !tg.ref.Equal(mm, mp) {
+			if mm := h2cRationalMap9380(ep); !tg.ref.Equal(mm, mp) {
 				t.Fatalf("%s: curve25519 output %v is not the image of the edwards25519 output %v under the birational map (%v)", in, p, e, mm)
 			}
 		}
